@@ -297,7 +297,58 @@ def _world(ctx, job, cc, depth, ssets, fset, kind, with_default, var, only_hist)
             if V.canon(got) != V.canon(want) or cfg.witness != 1:
                 bad("unbound-differs", "after %s the field is %r; without any variable it is %r" % (hist, got, want), hist)
     _setenv({})
+    # the same schema object builds a second configuration after the environment changed: the second one must
+    # reflect the environment at *its* construction (nothing about the variable may be remembered by the schema)
+    if name is not None and var in ("valid", "unset", "invalid") and (only_hist is None or only_hist == ["rebuild"]):
+        states = {"unset": None, "valid": k["valid"][0], "other": k["decoy"], "invalid": k["invalid"]}
+        for first, second in (("unset", "valid"), ("valid", "unset"), ("valid", "other"), ("invalid", "valid"), ("valid", "invalid"), ("unset", "invalid")):
+            if first != var and second != var:
+                continue
+            schema, field = build(cc, ssets, fset, depth, kind, with_default)
+            results = []
+            for st in (first, second):
+                env2 = {n: k["decoy"] for n in plausible_names(depth) if n != name}
+                if states[st] is not None:
+                    env2[name] = states[st]
+                _setenv(env2)
+                try:
+                    c = schema()
+                    results.append(("ok", getattr(chained(c, depth), FKEY)))
+                except Exception as exc:  # noqa
+                    results.append(("raise", exc))
+            _setenv({})
+            ctx.transitions += 1
+            got = results[1]
+            dflt = k["default"] if with_default else None
+            if second == "invalid":
+                okk = got[0] == "raise"
+                want_txt = "construction fails"
+            elif second == "unset":
+                okk = got[0] == "ok" and V.canon(got[1]) == V.canon(dflt)
+                want_txt = "the default %r" % (dflt,)
+            else:
+                wantv = k["valid"][1] if second == "valid" else KINDS[kind].get("decoy_value")
+                if second == "other":
+                    # the decoy text validated by the same field
+                    try:
+                        wantv = field.validate(schema(), k["decoy"]) if False else _validated(cc, kind, k["decoy"])
+                    except Exception:  # noqa
+                        continue
+                okk = got[0] == "ok" and V.canon(got[1]) == V.canon(wantv)
+                want_txt = "%r" % (wantv,)
+            ctx.case((tuple(ssets), fset, depth, kind, with_default, "rebuild", first, second), "rebuild:%s->%s:%s" % (first, second, "ok" if okk else "bad"), True)
+            if not okk:
+                bad("schema-remembers-environment|%s->%s" % (first, second),
+                    "a configuration built with the variable %s, then a second one from the same schema with the variable %s: the second gives %r, expected %s"
+                    % (first, second, got[1], want_txt), ["rebuild"])
     ctx.traces += 1
+
+
+def _validated(cc, kind, text):
+    f = KINDS[kind]["mk"](cc)
+    s = cc.Schema()
+    s.f = f
+    return f.validate(s(), text)
 
 
 def _last_assign_wins(hist):
